@@ -36,7 +36,7 @@ TIERS = {
 }
 REACH_PROBES = ["name_changed_hands", "foreign_takeover_attempt", "call_in_flight_during_redefinition", "alias_form",
                 "two_decorators_form", "response_returned", "deleted_then_called", "reload_dropped_runtime_definitions",
-                "outgoing_entity_method", "outgoing_return_response"]
+                "outgoing_entity_method", "outgoing_return_response", "two_calls_of_one_service_overlap"]
 SHRINK_LISTS = [["ops"]]
 
 CTXS = ["ca", "cb", "cc"]
@@ -72,7 +72,11 @@ def gen(rng: random.Random, tier: str) -> dict:
             ops.append({"kind": "delete", "ctx": ctx, "slot": rng.randint(0, 1), "inflight": rng.random() < 0.3})
         elif roll < 0.72:
             ops.append({"kind": "reload_ctx", "ctx": ctx})
-        elif roll < 0.78:
+        elif roll < 0.80:
+            # two calls of one service in flight at once, the first resumes while the second is still suspended
+            naps = rng.choice([[0.2, 0.3], [0.3, 0.1], [0.2, 0.2], [0.4, 0.5]])
+            ops.append({"kind": "overlap", "ctx": ctx, "slot": rng.randint(0, 1), "naps": naps, "gap": 0.1})
+        elif roll < 0.85:
             ops.append({"kind": "unload"})
             ops.append({"kind": "setup"})
         else:
@@ -113,7 +117,10 @@ def _def_block(ctx: str, slot: int, form: str, indent: str) -> list[str]:
         lines.append(f"{indent}@service('pyscript.{names[0]}', supports_response='only')")
     lines.append(f"{indent}def {fname}(**kw):")
     lines.append(f"{indent}    sim.mark('svc', {ctx!r}, {slot}, gen, {form!r}, **kw)")
-    lines.append(f"{indent}    return {{'ctx': {ctx!r}, 'slot': {slot}, 'gen': gen}}")
+    lines.append(f"{indent}    if kw.get('nap'):")
+    lines.append(f"{indent}        task.sleep(kw['nap'])")
+    lines.append(f"{indent}        sim.mark('svc_end', {ctx!r}, {slot}, gen, {form!r}, **kw)")
+    lines.append(f"{indent}    return {{'ctx': {ctx!r}, 'slot': {slot}, 'gen': gen, 'n': kw.get('n')}}")
     return lines
 
 
@@ -334,7 +341,7 @@ def run(scn: dict) -> dict:
                          f"after {tag}: pyscript.{name} got kwargs {got[0]['kw']}, expected data {data} + trigger_type")
                 if want_resp:
                     w.probe("response_returned")
-                    if resp != {"ctx": ctx, "slot": slot, "gen": ent["gen"]}:
+                    if resp != {"ctx": ctx, "slot": slot, "gen": ent["gen"], "n": data["n"]}:
                         viol("C12.response", {"form": ent["form"]}, f"after {tag}: pyscript.{name} returned {resp!r}")
 
         await check_all("start")
@@ -388,6 +395,47 @@ def run(scn: dict) -> dict:
                     continue
                 await w.setup_entry()
                 entry_loaded = True
+            elif kind == "overlap":
+                import asyncio
+
+                ent = slots.get((op["ctx"], op["slot"]))
+                if not ent or not ent["names"]:
+                    continue
+                name = ent["names"][-1]
+                want_resp = ent["form"] in ("optional", "only")
+                pos = len(w.marks)
+                calls = []
+                for nap in op["naps"]:
+                    call_n[0] += 1
+                    data = {"n": call_n[0], "who": name, "nap": nap}
+                    fut = asyncio.ensure_future(w.call_service("pyscript", name, data, blocking=True,
+                                                               return_response=want_resp))
+                    calls.append((data, fut))
+                    await w.sleep(op["gap"])
+                w.probe("two_calls_of_one_service_overlap")
+                for data, fut in calls:
+                    try:
+                        resp = await fut
+                    except Exception as exc:  # pylint: disable=broad-except
+                        viol("C12.call_raised", {"form": ent["form"], "overlap": True},
+                             f"{tag}: overlapping call {data} of pyscript.{name} raised {exc!r}")
+                        continue
+                    if want_resp and resp != {"ctx": op["ctx"], "slot": op["slot"], "gen": ent["gen"], "n": data["n"]}:
+                        viol("C12.response", {"form": ent["form"], "overlap": True},
+                             f"{tag}: overlapping call {data} of pyscript.{name} returned {resp!r}")
+                await w.settle(0.05)
+                for data, _fut in calls:
+                    exp_kw = {"trigger_type": "service", **data}
+                    for which in ("svc", "svc_end"):
+                        got = [m for m in w.marks[pos:] if m["args"][0] == which and
+                               {k: v for k, v in m["kw"].items() if k != "context"} == exp_kw]
+                        if len(got) != 1:
+                            seen = [{k: v for k, v in m["kw"].items() if k != "context"}
+                                    for m in w.marks[pos:] if m["args"][0] == which]
+                            viol("C12.call_kwargs", {"form": ent["form"], "overlap": True, "at": which},
+                                 f"{tag}: two overlapping calls of pyscript.{name}: the call with data {data} shows "
+                                 f"{len(got)} '{which}' marks with its own keyword arguments; all '{which}' marks: {seen}")
+                continue
             elif kind == "out":
                 pos_r = len(records)
                 pos_m = len(w.marks)
